@@ -60,11 +60,11 @@ def run(ctx):
         small = small[:60] + rng.sample(small[60:], 500)
     for es in small:
         cases.append({"events": es, "start": 0, "stop": len(es), "pol": 2})
-    for _ in range(200 if thorough else 60):
+    for _ in range(1500 if thorough else 60):
         es = random_events(rng, rng.randint(1, 6), rng.choice([5, 40, 1500, 3000]), rng.choice([4, 100, 2**32]))
         cases.append({"events": es, "start": 0, "stop": len(es), "pol": 2})
     # windows and policies
-    for _ in range(600 if thorough else 200):
+    for _ in range(4000 if thorough else 200):
         es = random_events(rng, rng.randint(0, 9), 4, 4)
         start = rng.randint(0, 6)
         stop = start + rng.randint(1, 6)
@@ -159,7 +159,7 @@ def run(ctx):
     rep.lap('reader')
     # ---------------- (c) kernels consume the chunks -----------------------------
     kcases = []
-    for k in range(30 if thorough else 12):
+    for k in range(160 if thorough else 12):
         # which id buffer has to be re-allocated: cues, outcomes, or both in one chunk (in both orders)
         big = {0: "cues", 1: "outs", 2: "both"}.get(k % 4)
         n_cues = rng.choice([1100, 1500, 3000]) if big in ("cues", "both") else rng.randint(2, 9)
